@@ -208,6 +208,9 @@ func (c *Authority) VerifyAnyQC(proposal *hotstuff.ProposeMsg) error {
 	qc := proposal.Block.QuorumCert()
 	aggQC := proposal.AggregateQC
 	if c.config.HasAggregateQC() && aggQC != nil {
+		if aggQC.Sig() == nil { // a proposal from the network may carry an aggregate QC without signature
+			return fmt.Errorf("aggregate quorum certificate has no signature")
+		}
 		highQC, err := c.VerifyAggregateQC(*aggQC)
 		if err != nil {
 			return err
